@@ -135,7 +135,7 @@ theorem mutate_itemsOnce (E : Env α) (r : Pair) (d : Nat) :
     · exact hfirst
     · by_cases hrp : r = p
       · subst hrp
-        have := cascade_self (local_mutate E) hp hnd happ hc
+        have := cascade_self (local_mutate E) hnd happ hc
         exact ⟨by rw [this.2.2]; exact hfirst.1, by rw [this.2.1]; exact hfirst.2⟩
       · -- r ≠ p: `apply` left r alone; at most one partner's propagation reaches r
         have hsame1 : SameAt r w w1 :=
